@@ -222,9 +222,12 @@ def verifyInclusion (c : HashCtx) (H : Nat) (root : Bytes) (ap : List Bytes) (ke
 def verifyNonInclusion (c : HashCtx) (H : Nat) (root : Bytes) (ap : List Bytes) (key : List Bool)
     (value : Bytes) (proofKey : Option (List Bool)) : Bool :=
   match proofKey with
-  | none => root == vUp c key ap.reverse defaultLeaf
+  | none =>
+    if ap.isEmpty then root.isEmpty            -- the empty subtree is the whole trie: nil root
+    else root == vUp c key ap.reverse defaultLeaf
   | some pk =>
-    verifyInclusion c H root ap pk value && (key.take ap.length == pk.take ap.length)
+    if pk = key then false                     -- the key's own leaf proves inclusion, not absence
+    else verifyInclusion c H root ap pk value && (key.take ap.length == pk.take ap.length)
 
 /-- Compressed proofs: `bits` says, root first, whether the sibling at that depth is stored
 (`bitIsSet(bitmap, length-keyIndex-1)`), `ap` holds the stored siblings root first
